@@ -384,6 +384,23 @@ func runC10(c *Ctx) {
 					if cl.target != "" && !absClean(cl.target) {
 						ok, why = false, fmt.Sprintf("%s handler received target %q: not absolute and clean", cl.entry, cl.target)
 					}
+					// relative paths are resolved against the configured start directory, nothing else
+					cstart := "/"
+					if start != "" {
+						cstart = sftp.VerifCleanPathWithBase("/", start)
+					}
+					under := func(sent, got string) bool {
+						if path.IsAbs(path.Clean(sent)) {
+							return got == path.Clean(sent)
+						}
+						return got == path.Join(cstart, sent)
+					}
+					if !verbatim && !under(p.S1, cl.filepath) {
+						ok, why = false, fmt.Sprintf("%s handler received path %q for %q with start directory %q", cl.entry, cl.filepath, p.S1, cstart)
+					}
+					if cl.target != "" && !under(p.S2, cl.target) {
+						ok, why = false, fmt.Sprintf("%s handler received target %q for %q with start directory %q", cl.entry, cl.target, p.S2, cstart)
+					}
 					if verbatim && cl.entry == "Filecmd" && cl.filepath != p.S1 {
 						ok, why = false, "symlink target text was altered"
 					}
